@@ -543,6 +543,10 @@ PATTERN_EXAMPLES = {
     "^(\\+|-)?[0-9]+$": ["0", "+1", "-12", "123"],
     "^[a-zA-Z_][a-zA-Z0-9_]{0,5}$": ["a", "_", "ab_1", "Foo", "abcdef"],
     "^[\\U00010000-\\U0010FFFF]?[a-c]$": ["a", "\U0001F600b", "c"],
+    # astral ranges of different widths (same / adjacent / three / many high surrogates)
+    "^[\\U0001F000-\\U0001FAFF]+$": ["\U0001F600", "\U0001F300\U0001F914", "\U0001F000", "\U0001FAFF", "\U0001F400\U0001F7FF"],
+    "^[a-z\\U0001F600-\\U0001F64F]{1,3}$": ["a", "\U0001F600", "z\U0001F64F", "\U0001F610b"],
+    "^[\\U00020000-\\U0002A6DF\\u4E00-\\u9FFF]*$": ["", "\u4e00", "\U00020000", "\U00025000\u9fff", "\U0002A6DF"],
 }
 PATTERN_POOL = list(PATTERN_EXAMPLES)
 # all of these accept "c", "ac" and "abc"
